@@ -1,6 +1,7 @@
 import AbraModel.Int64
 import AbraModel.Drv.Util
-/- Driver for M1: `i64 <form> <op> <a> <b>`; form ∈ {var, lit}: `lit` goes through the optimizer fold. -/
+/- Driver for M1: `i64 <form> <op> <a> <b>`; form ∈ {var, lit}: `lit` goes through the optimizer fold;
+   `i64 chain <op1> <op2> <x> <c1> <c2>` is `(x op1 c1) op2 c2`. -/
 namespace Abra.Drv
 open Abra.I64
 
@@ -14,6 +15,11 @@ def handleI64 : List String → String
       | "lit" => (applyFolded op a b).render
       | _ => "bad-op"
     | _, _, _ => "bad-op"
+  | ["chain", op1, op2, x, c1, c2] =>
+    match Op.parse? op1, Op.parse? op2, parseInt? x, parseInt? c1, parseInt? c2 with
+    | some op1, some op2, some x, some c1, some c2 =>
+      if !(inRange x && inRange c1 && inRange c2) then "bad-op" else (chain op1 op2 x c1 c2).render
+    | _, _, _, _, _ => "bad-op"
   | ["neg", a] =>
     match parseInt? a with
     | some a => if inRange a then (neg a).render else "bad-op"
